@@ -138,6 +138,22 @@ def start_args(tree, s, form, rng):
     raise ValueError(form)
 
 
+_DECOY = []
+
+
+def decoy_dir():
+    if not _DECOY:
+        import atexit
+        import shutil
+        import tempfile
+        d = tempfile.mkdtemp(prefix="c20-decoy-")
+        with open(os.path.join(d, "sibmark.py"), "w") as f:
+            f.write("LEVEL = -1\n")
+        atexit.register(shutil.rmtree, d, True)
+        _DECOY.append(d)
+    return _DECOY[0]
+
+
 @contextlib.contextmanager
 def clean_imports(name, cwd):
     old_cwd = os.getcwd()
@@ -148,6 +164,9 @@ def clean_imports(name, cwd):
         del sys.modules[m]
     importlib.invalidate_caches()
     os.chdir(cwd)
+    # a same-named module elsewhere on the import path (as a PYTHONPATH entry or an earlier project
+    # would leave it) must not be taken for the loaded module's sibling
+    sys.path.append(decoy_dir())
     try:
         yield
     finally:
